@@ -323,7 +323,7 @@ def gen_value_dirs(rng, tier):
 
 def gen_fills(rng, tier):
     cases = []
-    counts = [0, 1, 2, 3, 40, 255, 256, 65535, 65536, 65537, -1, -2, -65535, -65536, 1 << 20, -(1 << 20)]
+    counts = [0, 1, 2, 3, 40, 255, 256, 65535, 65536, 65537, -1, -2, -65535, -65536, 1 << 20, -(1 << 20), 1 << 32, 1 << 50, -(1 << 50)]
     if tier != "quick":
         counts += ([rng.randrange(0, 65536) for _ in range(4)] + [rng.randrange(0, 3000) for _ in range(20)]
                    + [rng.randrange(-70000, 0) for _ in range(10)] + [rng.randrange(65536, 140000) for _ in range(10)])
@@ -344,7 +344,7 @@ def gen_fills(rng, tier):
     for c in range(0, 65):
         for off in range(0, 71):
             cases.append({"t": "dir", "kind": "meta", "name": ".align", "ops": [(False, c)], "addr": off, "charset": "bk"})
-    for c in (-1, -2, -64, 65, 100, 256, 1000, 4096, 65535, 65536, 70000):
+    for c in (-1, -2, -64, 65, 100, 256, 1000, 4096, 65535, 65536, 70000, 1 << 32, 1 << 50, -(1 << 50)):
         for off in (0, 1, 511, 512, 513, 4095, 65535):
             if 0 < c and (-off) % c > 5000 and tier == "quick":
                 continue
@@ -621,6 +621,13 @@ def all_cases(rng, tier):
             e["addr"] = 512 + e["addr"] % 2
             e["prefix"] = "link"
         e2e.append(e)
+    for name in (".align", ".blkb", ".blkw"):
+        for n in (65535, 65536, 1 << 32, 1 << 50):
+            if name != ".align" and n == 65535 and tier == "quick":
+                continue
+            for prefix in ("link", "fwd"):
+                e2e.append({"t": "dir", "kind": "meta", "name": name, "ops": [(False, n)], "addr": 513, "charset": "bk",
+                            "mode": "e2e", "prefix": prefix})
     cs += e2e
     cs += gen_scans(rng, tier)
     cs += gen_items(random.Random(rng.random()), tier)
@@ -630,6 +637,10 @@ def all_cases(rng, tier):
 # ---------------------------------------------------------------------------------------------
 # running the real code
 def e2e_source(c):
+    if c.get("prefix") == "fwd":
+        # the operands are symbols defined after the directive (forward references): the bytes are deferred
+        line, syms = source_of(c, symbolic=True)
+        return f".link {c['addr']}.\n" + line + "\n" + "".join(f"{k} = {num(v)}\n" for k, v in syms.items()), 0
     line, _ = source_of(c, symbolic=False)
     if line.startswith("-") and c["prefix"] != "none":
         # an expression continues over a newline when the next line starts with an infix operator:
@@ -697,8 +708,8 @@ def observe(cases):
         src, plen = items_source(cases[i]) if cases[i]["t"] == "items" else e2e_source(cases[i])
         cases[i]["src"] = src
         cases[i]["plen"] = plen
-        jobs.append((([("t.mac", src)],), {"charset": cases[i]["charset"]}))
-    outs = impl.pmap("assemble", jobs)
+        jobs.append(([("t.mac", src)], cases[i]["charset"]))
+    outs = D.pmap("assemble", jobs)
     for i, o in zip(sel, outs):
         # warnings of the parser about the layout of the source are not the directive's
         ds = [["W" if d[0] == "warning" else "E", d[1]] for d in o.get("diags", []) if d[0] != "warning" or d[1] == "implicit-operand"]
